@@ -89,6 +89,38 @@ Proof.
 Qed.
 
 (* ---------- compute_hmac: parametric in the keyed hash ---------- *)
+(* the loop reads the block only through its targets and parameters: the results it carries are irrelevant *)
+Lemma sha_variant_of_set ib r : sha_variant_of (set_ib_results ib r) = sha_variant_of ib.
+Proof. reflexivity. Qed.
+Lemma hmac_loop_results_irrelevant mac ib r key : forall ippts acc,
+  hmac_loop mac (set_ib_results ib r) key ippts acc = hmac_loop mac ib key ippts acc.
+Proof.
+  induction ippts as [|[num ippt] rest IH]; intros acc; cbn [hmac_loop]; [reflexivity|].
+  cbn [set_ib_results ib_targets]. destruct (memN num (ib_targets ib)); [|apply IH].
+  unfold hmac_result. rewrite sha_variant_of_set.
+  destruct (sha_variant_of ib) as [v| |]; cbn [bind]; try reflexivity.
+  destruct (mac v key ippt); cbn [bind]; [apply IH|reflexivity].
+Qed.
+(* compute_hmac = reset, then the loop from the empty list *)
+Lemma compute_hmac_with_unfold mac key ippts ib :
+  compute_hmac_with mac key ippts ib = (do rs <- hmac_loop mac ib key ippts []; Ok (set_ib_results ib rs)).
+Proof.
+  unfold compute_hmac_with, reset_results. cbv zeta. cbn [ib_results set_ib_results].
+  rewrite hmac_loop_results_irrelevant. reflexivity.
+Qed.
+(* signing a block that already carries results (signed before, built with results, decoded) = signing the fresh block *)
+Theorem compute_hmac_ignores_results mac key ippts ib r :
+  compute_hmac_with mac key ippts (set_ib_results ib r) = compute_hmac_with mac key ippts ib.
+Proof.
+  rewrite !compute_hmac_with_unfold, hmac_loop_results_irrelevant. reflexivity.
+Qed.
+Theorem compute_hmac_resign mac k1 k2 ippts1 ippts2 ib ib1 :
+  compute_hmac_with mac k1 ippts1 ib = Ok ib1 ->
+  compute_hmac_with mac k2 ippts2 ib1 = compute_hmac_with mac k2 ippts2 ib.
+Proof.
+  rewrite compute_hmac_with_unfold. destruct (hmac_loop mac ib k1 ippts1 []) as [rs| |]; cbn [bind]; try discriminate.
+  intros H. inversion H. apply compute_hmac_ignores_results.
+Qed.
 Section ResultShape.
   Variable mac : N -> list byte -> list byte -> option (list byte).
   Variable h : list byte -> list byte.        (* the MAC function selected by the variant, for the given key *)
@@ -112,7 +144,7 @@ Section ResultShape.
   Theorem compute_hmac_shape ib ippts : sha_variant_of ib = Ok v ->
     compute_hmac_with mac key ippts ib = Ok (set_ib_results ib (map result_of (filter (selected ib) ippts))).
   Proof.
-    intros Hv. unfold compute_hmac_with. rewrite (hmac_loop_shape ib Hv). reflexivity.
+    intros Hv. rewrite compute_hmac_with_unfold, (hmac_loop_shape ib Hv). reflexivity.
   Qed.
   Lemma filter_all ib ippts : (forall nm, In nm ippts -> In (fst nm) (ib_targets ib)) -> filter (selected ib) ippts = ippts.
   Proof.
@@ -150,7 +182,7 @@ Theorem compute_hmac_unsupported key v pid ps ib num ippt rest :
   v <> HMAC_SHA_256 -> v <> HMAC_SHA_384 -> v <> HMAC_SHA_512 -> In num (ib_targets ib) ->
   compute_hmac key ((num, ippt) :: rest) ib = Panic PUnimplemented.
 Proof.
-  intros Hp Hs H5 H6 H7 Hin. unfold compute_hmac, compute_hmac_with. cbn [hmac_loop].
+  intros Hp Hs H5 H6 H7 Hin. unfold compute_hmac. rewrite compute_hmac_with_unfold. cbn [hmac_loop].
   apply memN_In in Hin. rewrite Hin. unfold hmac_result. rewrite (sha_variant_of_ok ib ps pid v Hp Hs). cbn [bind].
   assert (E : hmac_sha2 v key ippt = None) by (apply hmac_sha2_none; auto).
   rewrite E. reflexivity.
@@ -159,7 +191,7 @@ Theorem compute_hmac_no_variant key ps ib num ippt rest :
   ib_params ib = Some ps -> bp_sha ps = None -> In num (ib_targets ib) ->
   compute_hmac key ((num, ippt) :: rest) ib = Panic PUnwrap.
 Proof.
-  intros Hp Hs Hin. unfold compute_hmac, compute_hmac_with. cbn [hmac_loop].
+  intros Hp Hs Hin. unfold compute_hmac. rewrite compute_hmac_with_unfold. cbn [hmac_loop].
   apply memN_In in Hin. rewrite Hin. unfold hmac_result, sha_variant_of. rewrite Hp, Hs. reflexivity.
 Qed.
 
